@@ -167,6 +167,10 @@ def check_rollback(ctx, cfg, seed):
     for i, op in enumerate(cfg.ops):
         if op in ('b', 'B'):
             for r in range(W_):
+                for name, e in rr.res[r]['ops'][i].get('eig_vs_factor', []):
+                    if e > (1e-3 if getattr(cfg, 'inv32', False) else 1e-6):
+                        return ctx.fail(f'rank {r}: after rolling back to the kept checkpoint the eigendecomposition of layer {name} '
+                                        f'does not belong to the restored A factor (Q diag(d) Q^T off by {e:.2e})', case, 'neox-stale-eig')
                 for name, ok in rr.res[r]['ops'][i].get('held_vs_kept', []):
                     if not ok:
                         return ctx.fail(f'rank {r}: after loading the kept checkpoint (op {i}, the {cfg.ops[:i + 1].count("b") + cfg.ops[:i + 1].count("B")}. load '
@@ -205,6 +209,9 @@ def run(ctx):
         # more model coordinates than layers: two model coordinates host no inverse worker at all, in memory
         dict(pp=1, dp=1, mp=4, blocks=1, ops=['f1', 's', 'l1', 'f1', 's'], ckpt_dir=None),
         dict(pp=1, dp=2, mp=4, blocks=1, ops=['f1', 's', 'v', 'f1', 's'], ckpt_dir=None),
+        # three stages of two blocks: layer names such as '2' and '12' (one a suffix of the other), in memory
+        dict(pp=3, dp=1, mp=1, blocks=2, ops=['f1', 's', 'l1', 'f1', 's'], ckpt_dir=None, empty_stage=None),
+        dict(pp=3, dp=2, mp=1, blocks=2, ops=['f1', 's', 'l1', 'f1', 's'], ckpt_dir=None, empty_stage=None),
     ]
     for i in range(n):
         if i < len(corpus):
@@ -233,6 +240,7 @@ def run(ctx):
                 break
         a, b = rng.randrange(1, 3), rng.randrange(1, 3)
         cfg.fus = 1
+        cfg.prediv = False      # (the eigenvalues themselves are then kept and can be checked against the factors)
         if i % 2 == 0:
             cfg.ops = ['f1', 's'] * a + ['k'] + ['f1', 's'] * b + ['v', 'b'] + ['f1', 's'] * b + ['v']
         else:
